@@ -3,7 +3,7 @@ import ast
 import json
 import os
 
-from .framework import rule, Ob, fmt_trace, sql_events, values_in
+from .framework import rule, Ob, fmt_trace, sql_events, values_in, deep_values
 from .model import AnalysisError, walk_shallow, dotted
 from .interp import Interp
 from .values import V, C
@@ -111,9 +111,9 @@ def p2(ctx):
         if p.kind == 'cut':
             continue
         tr = p.trace
-        updates = [e for e in tr if e.kind == 'MCALL' and e.d['name'] == 'update' and e.fn is f]
-        copies = [e for e in tr if e.kind == 'MCALL' and e.d['name'] == 'copy' and e.fn is f]
-        sel = [e for e in sql_events(tr, 'select', 'Settings') if e.fn is f]
+        updates = [e for e in tr if e.kind == 'MCALL' and e.d['name'] == 'update']
+        copies = [e for e in tr if e.kind == 'MCALL' and e.d['name'] == 'copy']
+        sel = [e for e in sql_events(tr, 'select', 'Settings')]
         if sel:
             res['stored-read'] = True
         if copies and len(updates) >= 2 and sel:
@@ -126,7 +126,7 @@ def p2(ctx):
                 res['layering'] = True
         for e in sql_events(tr, 'insert', 'Settings'):
             # which loop encloses it?  find the last FOR it=1 before the event
-            fors = [x for x in tr[:e.seq] if x.kind == 'FOR' and x.d['it'] == 1 and x.fn is f]
+            fors = [x for x in tr[:e.seq] if x.kind == 'FOR' and x.d['it'] == 1]
             if not fors:
                 continue
             it = fors[-1].d['iter']
@@ -146,14 +146,14 @@ def p2(ctx):
                               or x.k in ('elem', 'field') for x in e.d['params'][:1])]
             meta_inserts = []
             for e in sql_events(tr, 'insert', 'Settings'):
-                fors = [x for x in tr[:e.seq] if x.kind == 'FOR' and x.d['it'] == 1 and x.fn is f]
+                fors = [x for x in tr[:e.seq] if x.kind == 'FOR' and x.d['it'] == 1]
                 if fors and _is_metadata_iter(fors[-1].d['iter']):
                     meta_inserts.append(e)
             if not meta_inserts:
                 res['metadata-always-seeded'] = False
-        pops = [e for e in tr if e.kind == 'MCALL' and e.d['name'] == 'pop' and e.fn is f]
+        pops = [e for e in tr if e.kind == 'MCALL' and e.d['name'] == 'pop']
         for e in pops:
-            fors = [x for x in tr[:e.seq] if x.kind == 'FOR' and x.d['it'] == 1 and x.fn is f]
+            fors = [x for x in tr[:e.seq] if x.kind == 'FOR' and x.d['it'] == 1]
             if fors and _is_metadata_iter(fors[-1].d['iter']):
                 res['metadata-stripped'] = True
     msgs = {
@@ -293,15 +293,21 @@ def format_facts(ctx):
             raise AnalysisError('P3: shard directory name is not a foldable function of the shard number')
         names[str(num)] = v.val
     facts['shard_dirs'] = names
-    # sub-caches
+    # sub-caches: constant path components between the fanout directory and the name parts
     sub = {}
     fc = ctx.prog.classes['FanoutCache']
     for m in ('cache', 'deque', 'index'):
         f = fc.methods.get(m)
-        for n in ast.walk(f.node):
-            if isinstance(n, ast.Call) and (dotted(n.func) or '').endswith('op.join') and len(n.args) >= 2 and \
-                    isinstance(n.args[1], ast.Constant):
-                sub[m] = n.args[1].value
+        for p in ctx.paths(f, 'default'):
+            for e in p.trace:
+                if e.kind == 'NEW' and e.d['name'] == 'Cache':
+                    dv = e.d['kwargs'].get('directory') or (e.d['args'][0] if e.d['args'] else None)
+                    if dv is None:
+                        continue
+                    consts = [x.val for x in deep_values(dv, p.trace) if x.is_const and isinstance(x.val, str)
+                              and x.val not in ('/',)]
+                    if consts:
+                        sub[m] = consts[0] if len(consts) == 1 else sorted(set(consts))[0] if len(set(consts)) == 1 else consts[0]
     facts['subdirs'] = sub
     # queue keys
     from .rules_queue import _runs, _range_select, _bounds
@@ -350,7 +356,7 @@ def format_facts(ctx):
         'suffix': [n.value for n in ast.walk(ff.node) if isinstance(n, ast.Constant) and isinstance(n.value, str)
                    and n.value.startswith('.')][:1],
         'slices': sorted(ast.unparse(n.slice) for n in ast.walk(ff.node) if isinstance(n, ast.Subscript)),
-        'relative': 'op.join(self._directory, filename)' in src,
+        'relative': _filename_relative(ctx),
     }
     # pickle of keys optimized; JSONDisk recipe
     put = ctx.method('Disk', 'put')
@@ -358,8 +364,13 @@ def format_facts(ctx):
                                         for n in ast.walk(put.node))
     j = ctx.prog.classes.get('JSONDisk')
     if j is not None:
-        facts['jsondisk'] = sorted({dotted(n.func) for m in j.methods.values() for n in ast.walk(m.node)
-                                    if isinstance(n, ast.Call) and (dotted(n.func) or '').split('.')[0] in ('json', 'zlib')})
+        names = set()
+        for m in j.methods.values():
+            for p in ctx.paths(m, 'plain'):
+                for e in p.trace:
+                    if e.kind == 'EXT' and e.d['name'].split('.')[0] in ('json', 'zlib'):
+                        names.add(e.d['name'])
+        facts['jsondisk'] = sorted(names)
     # text codec of value files
     from .rules_codec import _store_paths, _open_events, _open_recipe, _codec_name
     from .rules_file import _mode_name
@@ -371,6 +382,27 @@ def format_facts(ctx):
                 enc.add(_codec_name(_open_recipe(o)['encoding']))
     facts['text_codec'] = sorted(map(str, enc))
     return facts
+
+
+def _filename_relative(ctx):
+    """Disk.filename returns (relative name, os.path.join(self._directory, relative name))."""
+    f = ctx.method('Disk', 'filename')
+    ok = False
+    for p in ctx.paths(f, 'plain'):
+        if p.kind != 'return':
+            continue
+        rv = p.outcome[1]
+        if rv.k != 'tuple' or len(rv.a[0]) != 2:
+            return False
+        rel, full = rv.a[0]
+        if not (full.k == 'ext' and full.a[0] == 'os.path.join'):
+            return False
+        je = p.trace[full.a[1]]
+        a = je.d['args']
+        ok = len(a) == 2 and a[0].k == 'selfattr' and a[0].a[1] == '_directory' and a[1] == rel
+        if not ok:
+            return False
+    return ok
 
 
 def _int_arg(node, fname):
